@@ -174,7 +174,53 @@ func c14KindOK(ty, io string, v any) bool {
 	return true // Any
 }
 
+// c14ArgumentsAndKeysAfterCalls: (1) a call with SEVERAL path arguments one of which carries a call that must be rejected (unknown, too
+// many arguments, a receiver its ValidOn does not admit): rejected wherever that argument stands, also when a clean path argument
+// follows it; (2) a key applied to the object that `AsArray().First()` / `Last()` / `Index(0)` hands back for a single object: the
+// verdict and the reported type are those of the same key and call applied to the object itself
+func c14ArgumentsAndKeysAfterCalls(c *Ctx) {
+	fld := func(n string, t *CTy) *CField { return &CField{N: n, M: "reg", Ty: t} }
+	prim := func(t string) *CTy { return &CTy{T: t} }
+	root := &CTy{T: "struct", F: []*CField{fld("input", &CTy{T: "struct", F: []*CField{fld("x", prim("string")), fld("t", prim("string")), fld("n", prim("number")), fld("b", prim("bool")),
+		fld("o", &CTy{T: "struct", F: []*CField{fld("a", prim("string")), fld("k", prim("number")), fld("f", prim("bool"))}}),
+		{N: "_dependencies", M: "reg", H: 1, Ty: &CTy{T: "deplist", V: []string{}}}}})}}
+	txt := cueSchemaText(&cueGen{}, root)
+	bad := []string{"$.input.n.Left(1)", "$.input.x.NoSuchFunction()", "$.input.x.Left(1,2)", "$.input.b.Add(1)", "$.input.x.Contains(\"a\").Left(1)", "$.input.nosuch"}
+	good := []string{"$.input.t", "$.input.x.Left(1)", "\"lit\"", "$.input.t.TrimLeft(1)"}
+	for _, b := range bad {
+		for _, g := range good {
+			for _, q := range []string{"$.input.x.AnyOf(" + b + "," + g + ")", "$.input.x.AnyOf(" + g + "," + b + ")", "$.input.x.AnyOf(" + g + "," + b + "," + g + ")", "$.input.x.AnyOf(" + b + "," + g + "," + g + ")",
+				"{AND,$.input.x.AnyOf(" + b + "," + g + ")}", "{OR,$.input.b,{AND,$.input.x.AnyOf(" + b + "," + g + ")}}", "$.input.x.Equal($.input.t.AnyOf(" + b + "," + g + ").AsJSON())"} {
+				c.cueDo(cueCase{S: root, P: []string{"input", "x"}, CP: "", Dom: true, Pos: "args", Q: q, Txt: txt}, "named/a-bad-argument-before-a-good-one", "REJ", false)
+			}
+		}
+	}
+	for _, g := range good {
+		c.cueDo(cueCase{S: root, P: []string{"input", "x"}, CP: "", Dom: true, Pos: "args", Q: "$.input.x.AnyOf(" + g + "," + good[0] + ")", Txt: txt}, "named/a-bad-argument-before-a-good-one", "ACC Boolean Single", false)
+	}
+	for _, el := range []string{"First()", "Last()", "Index(0)"} {
+		for _, tail := range []string{"a", "k", "f", "a.Left(1)", "a.Contains(\"x\")", "k.Add(1)", "f.Not()", "k.Greater(1)", "a.Add(1)", "k.Left(1)", "nosuch", "a.Left(1).Left(1)"} {
+			direct := cueValidateGuarded("$.input.o."+tail, txt, "")
+			viaList := c.cueDo(cueCase{S: root, P: []string{"input", "o"}, CP: "", Dom: true, Pos: "args", Q: "$.input.o.AsArray()." + el + "." + tail, Txt: txt}, "named/keys-after-the-element-of-a-wrapped-object", "", true)
+			dl, vl := direct.Line, viaList.Line
+			if strings.HasPrefix(dl, "REJ") {
+				dl = "REJ"
+			}
+			if strings.HasPrefix(vl, "REJ") {
+				vl = "REJ"
+			}
+			if dl != vl {
+				q := "$.input.o.AsArray()." + el + "." + tail
+				c.addViolation(Violation{Kind: "oracle", Query: q, QueryHex: hx(q), Expected: dl, Got: vl, Cls: "named/keys-after-the-element-of-a-wrapped-object",
+					Why: "the key and calls applied to the element of the wrapped object are validated differently from the same key and calls applied to the object itself ($.input.o." + tail + ")",
+					Key: "typing:after-element-of-wrapped-object:" + strings.Fields(dl + " -")[0] + ">" + strings.Fields(vl + " -")[0], Extra: map[string]any{"schema": txt}})
+			}
+		}
+	}
+}
+
 func genC14(c *Ctx) {
+	c14ArgumentsAndKeysAfterCalls(c)
 	c.Rule = "exhaustive: every function of ListFunctions() x 10 receiver types (String, Number, Boolean, Object, Any; Single and Array) x conformant argument lists (exact count; variadic 0..2) and over-long lists (one more literal; the surplus made of path or group arguments, alone or mixed with the literals), validated against a schema `input: {recv: <type>}`; oracle from the descriptor table: accept iff known, no more arguments than declared, ValidOn admits the receiver type, reported type = Returns (element type for First/Last/Index on a typed list); pairs whose only mismatch is Single-vs-Array under ValidOn Any are unspecified (class unspecified/..., not enforced). Every accepted conformant call is evaluated on data instantiated from the schema: the result must have the reported kind (array-ness only for Array results) or fail with a data-dependent error (Parse* on text that is not a document). Lists of strings that read as numbers (\"12\", \"-0.50\", \"1e3\", \"007\") are evaluated with First/Last/Index only (the element comes back as the string the validator reports); a function applied to such a string takes it as a number by design, which the sibling properties exclude in words (`strings that are not numerals`). Chains `x.AsArray().AsArray().F…` and `x.AsArray().F…` for every receiver (lists of lists: the element type is known one level deep). Then random chains of two and three calls, validated and evaluated the same way. distinct = distinct (class, function, verdict)"
 	fns := mpath.ListFunctions()
 	names := funcNames()
